@@ -14,7 +14,8 @@ CFG = {
             "3*capacity+40 rounds of Put/Delete of fresh keys in three styles (one or two keys in flight, lookups of the deleted and of an "
             "absent key), with lookups of resident keys, under hash families {fnv, id, const, mod3, class} and default/larger/tighter options, "
             "for all four tables; adversarial: fills across the growth threshold under a constant hash with lookups of absent colliding keys, "
-            "delete/revive, threshold oscillation; clients: library-internal users of the quadratic table under the watchdog with a small oracle each — grammar.Productions under "
+            "delete/revive, threshold oscillation; initial capacities whose growth/shrink targets lie next to squares of primes (59, 131, 229, 241, thorough: 239, 263, ...) "
+            "filled to the limit of every size reached under one-class hash functions with absent-key Get/Delete after every Put; capacities the constructor must reject (121, 169, 289, 961, ...); clients: library-internal users of the quadratic table under the watchdog with a small oracle each — grammar.Productions under "
             "Add/Remove/RemoveAll churn of fresh heads with Get lookups; FIRST/FOLLOW tables via ComputeFIRST/ComputeFOLLOW on chain grammars with 20-300 "
             "symbols; lr.ParsingTable under AddACTION/SetGOTO/ACTION/GOTO churn over up to 200 states x 120 symbols. Non-trivial: at least one structural event on the model side (growth, shrink, "
             "in-place rehash, revival, successful Delete); distinct = distinct (configuration, op list).",
@@ -23,3 +24,15 @@ CFG = {
                     "the harness installs the identity shuffle; the model runs with the identity oracle"],
     "timeout": 900,
 }
+
+
+# the directed search on a table-size disagreement is shared with C02 (see checks/C02.py)
+import importlib.util, os
+
+_spec = importlib.util.spec_from_file_location("chk_c02", os.path.join(os.path.dirname(os.path.abspath(__file__)), "C02.py"))
+_c02 = importlib.util.module_from_spec(_spec)
+_spec.loader.exec_module(_c02)
+
+
+def main(run):
+    return _c02.check_with_directed_search(run, CFG)
